@@ -6,6 +6,7 @@ Import ListNotations.
 From V.gen Require Import TokenTable.
 From V.Lexer Require Import Model Proofs.
 From V.C04 Require Model Totality.
+From V.Stmt Require Model Spec Run Complete Theorems.
 From V.C01 Require Import Model Spec Proofs.
 
 (* tokenizing terminates: |s|+1 main-loop iterations always suffice, in both modes, and the preprocessor needs
@@ -31,10 +32,32 @@ Theorem dollar_guard_safe : forall ts i, dollar_next_fixed ts i <> Crash.
 Proof. exact dollar_fixed_safe_l. Qed.
 Print Assumptions dollar_guard_safe.
 
-(* the expression core of the parser terminates with a fuel linear in the number of tokens, on EVERY token list
-   (and its result type has no crash outcome: a missing operand is `Unsup` in the model, a parse error in the
-   code since fix c587cb8) *)
-Theorem parse_core_total : forall ts,
+(* the expression core of the parser (coq/C04) terminates with a fuel linear in the number of tokens, on EVERY token list *)
+Theorem expr_core_total : forall ts,
   V.C04.Model.parse (V.C04.Model.fuel_for ts) (V.C04.Model.Lvl 0) ts <> V.C04.Model.Fuel.
 Proof. exact V.C04.Totality.parse_top_total. Qed.
+Print Assumptions expr_core_total.
+
+(* ---- the statement-level parser core (coq/Stmt): parseProgram with its no-progress guard, blocks, echo / expression
+   statements, if/elseif/else, while, do-while, for, foreach, switch, break/continue/return, function declarations
+   and calls, array and object literals, try/catch/finally, throw, on top of the 18 expression levels with the nil
+   results of the Go code ---- *)
+
+(* it terminates on every token list with a fuel linear in the number of tokens; the guarded loops terminate because
+   of the no-progress guard *)
+Theorem parse_core_total : forall ts, V.Stmt.Run.parse_program ts <> V.Stmt.Run.TopFuel.
+Proof. exact V.Stmt.Theorems.parse_core_total. Qed.
 Print Assumptions parse_core_total.
+
+(* the answer is a program, a positioned error, or "outside the modelled core": never a crash *)
+Theorem parse_core_result : forall ts,
+  (exists prog, V.Stmt.Run.parse_program ts = V.Stmt.Run.TopOk prog) \/
+  (exists p, V.Stmt.Run.parse_program ts = V.Stmt.Run.TopErr p) \/ V.Stmt.Run.parse_program ts = V.Stmt.Run.TopUnsup.
+Proof. exact V.Stmt.Theorems.parse_core_result. Qed.
+Print Assumptions parse_core_result.
+
+(* an accepted program has no missing operand and no missing clause (`cmp`: no nil except in the optional slots) *)
+Theorem accepted_is_complete : forall ts prog,
+  V.Stmt.Run.parse_program ts = V.Stmt.Run.TopOk prog -> forallb V.Stmt.Spec.cmp prog = true.
+Proof. exact V.Stmt.Theorems.accepted_is_complete. Qed.
+Print Assumptions accepted_is_complete.
